@@ -105,11 +105,13 @@ impl InitLoadUnverified {
 
     fn find_and_verify_unverified_blocks(&self) {
         self.find_unverified_blocks(|unverified_hash| {
-            let unverified_block: BlockView = self
-                .shared
-                .store()
-                .get_block(unverified_hash)
-                .expect("unverified block must be in db");
+            // the block may have been verified (and, if invalid, deleted) by the chain service
+            // since the scan listed it
+            let Some(unverified_block): Option<BlockView> =
+                self.shared.store().get_block(unverified_hash)
+            else {
+                return;
+            };
 
             if has_received_stop_signal() {
                 return;
